@@ -1102,6 +1102,19 @@ pub fn run(plan: &Plan, tape: dsim::Tape) -> RunOut {
                     "empty" => vec![ReqSpec::Garbage { len: 0, seed: 0 }],
                     "short" => vec![ReqSpec::Mutant { base: Box::new(valid), muts: vec![Mutation::Truncate(1000)] }],
                     "mixed" => vec![valid, wrong_srv],
+                    // requests of both protocols with datagrams shorter than any header between them
+                    "runts" => {
+                        let ietf = ReqSpec::Valid { proto: P::Ietf, size: 1024, nonce_seed: plan.seed ^ 0xf100f, srv: SrvMode::Absent, vers: vec![r::VER_DRAFT13] };
+                        let classic = ReqSpec::Valid { proto: P::Classic, size: 1024, nonce_seed: plan.seed ^ 0xf1010, srv: SrvMode::Absent, vers: vec![] };
+                        vec![
+                            ietf.clone(),
+                            ReqSpec::Garbage { len: 3, seed: plan.seed ^ 0x6b },
+                            classic,
+                            ReqSpec::Garbage { len: 0, seed: 0 },
+                            ietf.clone(),
+                            ReqSpec::Mutant { base: Box::new(ietf), muts: vec![Mutation::Truncate(9)] },
+                        ]
+                    }
                     _ => vec![valid],
                 };
                 let bytes = std::rc::Rc::new(specs.iter().map(|s| reqs::build(s, &srv)).collect::<Vec<_>>());
